@@ -165,9 +165,11 @@ def returns_alias_of(func):
             for v in vals:
                 b = base_name(v) if isinstance(
                     v, (ast.Name, ast.Subscript, ast.Attribute)) else None
-                if b in al and al[b].startswith("param:") and \
+                root = al.get(b, "").split(":")[-1]
+                if b in al and root in ps and not al[b].startswith(
+                        ("shallowof:", "holds:")) and \
                         freshness(v) in ("alias", "view"):
-                    return ps.index(al[b].split(":")[1])
+                    return ps.index(root)
     return None
 
 
@@ -230,8 +232,8 @@ def _alias_source(val, al):
             # fresh container; elements alias the argument's elements
             args = list(val.args)
             if isinstance(val.func, ast.Attribute) and \
-                    val.func.attr == "copy":
-                args = [val.func.value]
+                    val.func.attr == "copy" and not val.args:
+                args = [val.func.value]      # x.copy(), not copy.copy(x)
             for a in args:
                 b = base_name(a)
                 if b in al:
